@@ -1,4 +1,4 @@
-import MJ.Proofs.Output
+import MJ.Proofs.OutputProg
 /-!
 # C19 — a failing output sink stops the render with the sink's own error
 
@@ -182,5 +182,46 @@ theorem C19_holds : C19_full := by
     clean_sink_same_as_plain ops script,
     (captures_do_not_touch_sink ops script).1,
     fun hb => (no_panic ops script hb).1⟩
+
+/-- **Structured renders are operation sequences.**  A render in which later output depends on
+    captured values (set/filter blocks, macro results, `super()`) and nested evaluations wrap
+    their errors on the way out, evaluated big-step (`exec`), is exactly the flat render of
+    `flatten p` — an operation sequence computed without looking at the writer — and its captures
+    are well bracketed. -/
+theorem structured_render_is_op_sequence (p : Prog) (script : List Beh) :
+    renderProgTo p script = renderTo (flatten p) script ∧
+    renderProgString p = renderString (flatten p) ∧
+    balanced 0 (flatten p) = true := by
+  refine ⟨(renderProg_eq p script).1, (renderProg_eq p script).2, ?_⟩
+  have := balanced_flatten p 0 []
+  simpa [balanced] using this
+
+/-- **C19 for structured renders**: all parts, and no panic without further hypothesis. -/
+theorem C19_structured (p : Prog) (script : List Beh) :
+    delivered (renderProgTo p script).calls <+: (renderProgString p).buf ∧
+    (∀ (i : Nat) (h : i < (renderProgTo p script).calls.length),
+        ((renderProgTo p script).calls[i]).failure ≠ none → i + 1 = (renderProgTo p script).calls.length) ∧
+    (∀ c ∈ (renderProgTo p script).calls, ∀ e, c.failure = some e →
+        (renderProgTo p script).result = .ok (.error (.writeFailure (some e)))) ∧
+    ((∀ c ∈ (renderProgTo p script).calls, c.failure = none) →
+        (renderProgTo p script).result = (renderProgString p).result ∧
+        delivered (renderProgTo p script).calls = (renderProgString p).buf) ∧
+    (renderProgTo p script).result ≠ .panic := by
+  obtain ⟨h1, h2, h3⟩ := structured_render_is_op_sequence p script
+  rw [h1, h2]
+  obtain ⟨a, b, c, d, _, f⟩ := C19_holds (flatten p) script
+  exact ⟨a, b, c, d, f h3⟩
+
+/-- a set block whose captured value is printed twice, transformed, inside an include -/
+example :
+    let p : Prog := .seq (.emit (.str [1]))
+      (.nested .badInclude (.capture false (.emit (.str [2, 3])) fun v =>
+        .seq (.emit (.str (v.getD []))) (.emit (.str ((v.getD []).reverse)))))
+    flatten p = [.write (.str [1]), .enter .badInclude, .beginCapture false, .write (.str [2, 3]),
+      .endCapture, .write (.str [2, 3]), .write (.str [3, 2]), .leave] ∧
+    (renderProgTo p [.all, .accept 1, .err ⟨.brokenPipe, 3⟩]).result
+      = .ok (.error (.writeFailure (some ⟨.brokenPipe, 3⟩))) ∧
+    delivered (renderProgTo p [.all, .accept 1, .err ⟨.brokenPipe, 3⟩]).calls = [1, 2] :=
+  ⟨by decide, by rfl, by decide⟩
 
 end MJ.C19
